@@ -215,6 +215,15 @@ def vec_resize(c):
     return [(c.st, Struct())]
 
 
+@model(r"^std::vec::Vec::<.*>::split_off$")
+def vec_split_off(c):
+    ln = c.seq_len(c.args[0])
+    at = c.num(c.args[1], 1)
+    c.require_ge(ln - at, "split_off", "at <= len")
+    _set_len(c, c.args[0], at, keep_items=True)
+    return [(c.st, Seq(ln - at))]
+
+
 @model(r"^std::vec::Vec::<.*>::truncate$")
 def vec_truncate(c):
     ln = c.seq_len(c.args[0])
@@ -256,6 +265,60 @@ def to_bytes(c):
 @model(r"^core::num::<impl u(8|16|32|64|128|size)>::from_(be|le|ne)_bytes$")
 def from_bytes_int(c):
     return None
+
+
+@model(r"^core::num::<impl u(8|16|32|64|128|size)>::(checked_sub|checked_add|saturating_sub|saturating_add|min|max|abs_diff)$|^std::cmp::(min|max)::<u(8|16|32|64|128|size)>$|^std::cmp::Ord::(min|max)$")
+def int_arith_helpers(c):
+    if len(c.args) < 2:
+        return None
+    t = c.arg_ty(0)
+    rng = int_range(t)
+    if rng is None:
+        return None
+    a, b = c.num(c.args[0], 0), c.num(c.args[1], 1)
+    op = c.name.rsplit("::", 1)[1].split("<")[0] if not c.name.startswith("std::cmp::m") else c.name.split("::")[2]
+    lo, hi = rng
+    st = c.st
+    if op == "checked_sub":
+        s1 = st.copy(); s1.sys.add_ge(a - b)
+        s2 = st; s2.sys.add_ge(b - a - 1)
+        out = []
+        if not s1.sys.bottom and c.it.feasible_wrt(s1, set(a.t) | set(b.t)):
+            out.append((s1, Enum(OPTION, {1: Struct({0: Num(a - b)})})))
+        if not s2.sys.bottom and c.it.feasible_wrt(s2, set(a.t) | set(b.t)):
+            out.append((s2, Enum(OPTION, {0: Struct()})))
+        return out
+    if op == "checked_add":
+        s1 = st.copy(); s1.sys.add_ge(Lin.const(hi) - a - b)
+        s2 = st; s2.sys.add_ge(a + b - hi - 1)
+        out = []
+        if not s1.sys.bottom and c.it.feasible_wrt(s1, set(a.t) | set(b.t)):
+            out.append((s1, Enum(OPTION, {1: Struct({0: Num(a + b)})})))
+        if not s2.sys.bottom and c.it.feasible_wrt(s2, set(a.t) | set(b.t)):
+            out.append((s2, Enum(OPTION, {0: Struct()})))
+        return out
+    r = c.it.fresh_num(st, lo, hi, op)
+    if op == "saturating_sub":
+        st.sys.add_le(r.e, a); st.sys.add_ge(r.e - a + b)
+        if st.sys.entails_ge(a - b):
+            return [(st, Num(a - b))]
+    elif op == "saturating_add":
+        st.sys.add_ge(r.e - a); st.sys.add_le(r.e, a + b)
+    elif op == "min":
+        st.sys.add_le(r.e, a); st.sys.add_le(r.e, b)
+        if st.sys.entails_ge(b - a):
+            return [(st, Num(a))]
+        if st.sys.entails_ge(a - b):
+            return [(st, Num(b))]
+    elif op == "max":
+        st.sys.add_ge(r.e - a); st.sys.add_ge(r.e - b)
+        if st.sys.entails_ge(a - b):
+            return [(st, Num(a))]
+        if st.sys.entails_ge(b - a):
+            return [(st, Num(b))]
+    elif op == "abs_diff":
+        st.sys.add_le(r.e, a + b)
+    return [(st, r)]
 
 
 @model(r"^core::num::<impl [ui](8|16|32|64|128|size)>::(pow|wrapping_.*|saturating_.*|checked_.*|overflowing_.*|leading_zeros|trailing_zeros|count_ones|swap_bytes|to_be|to_le|from_be|from_le|min|max|abs_diff|rotate_left|rotate_right)$")
@@ -351,7 +414,7 @@ def chunks(c):
     n = c.num(c.args[1], 1)
     c.require_ge(n - 1, "chunks:size", "chunk size is not zero")
     exact = "chunks_exact" in c.name
-    return [(c.st, Iter(c.seq_len(c.args[0]), False, "chunks", n if exact else None))]
+    return [(c.st, Iter(c.seq_len(c.args[0]), False, "chunks", n if exact else None, Seq(n) if exact else None))]
 
 
 @model(r"^<std::slice::Iter(Mut)?<.*> as std::iter::Iterator>::enumerate$|^<std::slice::ChunksExact<.*> as std::iter::Iterator>::enumerate$")
@@ -360,6 +423,28 @@ def iter_enumerate(c):
     if isinstance(v, Iter):
         return [(c.st, Iter(v.len, True, v.kind, v.chunk))]
     return None
+
+
+@model(r"^<std::slice::(Iter|IterMut|ChunksExact|Chunks)(Mut)?<.*> as std::iter::Iterator>::zip::<")
+def iter_zip(c):
+    a, b = c.deref(c.args[0]), c.deref(c.args[1])
+    if isinstance(a, Iter) and isinstance(b, Iter):
+        ia = a.items if isinstance(a.items, V) and not isinstance(a.items, Empty) else TOP
+        ib = b.items if isinstance(b.items, V) and not isinstance(b.items, Empty) else TOP
+        return [(c.st, Iter(a.len, False, "zip", None, Struct({0: ia, 1: ib})))]
+    for x in c.args:
+        c.escape(x)
+    return [(c.st, c.top_ret())]
+
+
+@model(r"^<std::iter::Zip<.*> as std::iter::Iterator>::next$")
+def zip_next(c):
+    v = c.deref(c.args[0])
+    none = Enum(OPTION, {0: Struct()})
+    if isinstance(v, Iter) and isinstance(v.items, V):
+        return [(c.st, none), (c.st.copy(), Enum(OPTION, {1: Struct({0: v.items})}))]
+    c.havoc_mut_args()
+    return [(c.st, c.top_ret())]
 
 
 @model(r"^<(std::iter::Enumerate<)?std::slice::(Iter|IterMut|ChunksExact|Chunks)(Mut)?<.*>>? as std::iter::IntoIterator>::into_iter$|^<std::iter::Enumerate<.*> as std::iter::IntoIterator>::into_iter$|^<std::iter::(Map|Filter|Rev|Take|Skip|Zip|Cloned|Copied)<.*> as std::iter::IntoIterator>::into_iter$|^<std::vec::IntoIter<.*> as std::iter::IntoIterator>::into_iter$|^<std::ops::Range<.*> as std::iter::IntoIterator>::into_iter$")
@@ -397,6 +482,8 @@ def std_iter_next(c):
     st2 = c.st.copy()
     if isinstance(v, Iter) and v.chunk is not None:
         return [(c.st, none), (st2, Enum(OPTION, {1: Struct({0: Seq(v.chunk)})}))]
+    if isinstance(v, Iter) and isinstance(v.items, V) and not isinstance(v.items, Empty) and not v.maps:
+        return [(c.st, none), (st2, Enum(OPTION, {1: Struct({0: v.items})}))]
     r = c.top_ret(st2)
     some = r.only(1) if isinstance(r, Enum) else TOP
     return [(c.st, none), (st2, some if some is not None else TOP)]
@@ -591,6 +678,28 @@ def ok_or(c):
     return [(c.st, Enum(RESULT, vs))]
 
 
+@model(r"^std::option::Option::<.*>::filter::<")
+def option_filter(c):
+    v, f = c.args[0], c.args[1]
+    if not isinstance(v, Enum):
+        c.escape(f)
+        return None
+    out = []
+    if 0 in v.v:
+        out.append((c.st.copy() if 1 in v.v else c.st, Enum(OPTION, {0: Struct()})))
+    if 1 in v.v:
+        cell = "%s/%d.%d:flt" % (c.fr.id, c.bb, c.part)
+        c.st.cells[cell] = v.v[1].get(0)
+        res = c.call_closure(c.st, f, [Ref(cell)], "fl")
+        if res is None:
+            c.escape(f)
+            out.append((c.st, Enum(OPTION, {0: Struct(), 1: v.v[1]})))
+        else:
+            for st2, ret in res:
+                out.append((st2, Enum(OPTION, {0: Struct(), 1: v.v[1]})))
+    return out
+
+
 @model(r"^std::option::Option::<.*>::ok_or_else::<|^std::option::Option::<.*>::unwrap_or_else::<|^std::result::Result::<.*>::unwrap_or_else::<|^std::option::Option::<.*>::(map_or|map_or_else)::<|^std::result::Result::<.*>::(map_or|map_or_else|or_else)::<")
 def hof_opaque(c):
     for a in c.args[1:]:
@@ -764,7 +873,7 @@ def int_ord(c):
 
 
 @model(r"^std::cmp::impls::<impl std::cmp::(PartialEq|PartialOrd|Ord|Eq)(<.*>)? for .*>::|^std::array::equality::<impl std::cmp::PartialEq(<.*>)? for \[.*\]>::(eq|ne)$|^std::vec::partial_eq::<impl std::cmp::PartialEq(<.*>)? for .*>::(eq|ne)$"
-       r"|^<std::boxed::Box<.*> as std::cmp::PartialEq>::(eq|ne)$|^core::slice::cmp::<impl std::cmp::PartialEq<.*> for \[.*\]>::(eq|ne)$|^<std::string::String as std::cmp::PartialEq(<.*>)?>::(eq|ne)$"
+       r"|^<std::boxed::Box<.*> as std::cmp::PartialEq>::(eq|ne)$|^core::slice::cmp::<impl std::cmp::PartialEq(<.*>)? for \[.*\]>::(eq|ne)$|^<std::string::String as std::cmp::PartialEq(<.*>)?>::(eq|ne)$"
        r"|^core::str::traits::<impl std::cmp::PartialEq for str>::(eq|ne)$|^<.* as std::cmp::(PartialEq|PartialOrd|Ord)(<.*>)?>::(eq|ne|cmp|partial_cmp|lt|le|gt|ge|max|min)$|^std::cmp::(max|min)::<")
 def opaque_cmp(c):
     return [(c.st, c.top_ret())]
